@@ -159,6 +159,12 @@ func shapedPath(root, name, shape string) (string, error) {
 			}
 		}
 		return up + "/" + name, nil
+	case "dot":
+		return ".", nil
+	case "dotslash":
+		return "./", nil
+	case "dotdot":
+		return "./.", nil
 	case "slash":
 		return real + "/", nil
 	case "dots":
@@ -646,6 +652,18 @@ func runOnce(c C18Case) verdict {
 		}
 	}
 
+	// a path that is "." makes that directory the working directory of the process (cases run
+	// one at a time); restored when the case is over
+	if wdDir := map[bool]string{true: pluginDirName, false: confDirName}[isDotShape(c.PluginPath)]; isDotShape(c.PluginPath) || isDotShape(c.ConfPath) {
+		old, err := os.Getwd()
+		if err != nil {
+			return infra("%v", err)
+		}
+		if err := os.Chdir(filepath.Join(root, wdDir)); err != nil {
+			return infra("chdir: %v", err)
+		}
+		defer os.Chdir(old)
+	}
 	// --- the paths handed to nri ------------------------------------------------------------
 	pluginPath, err := shapedPath(root, pluginDirName, c.PluginPath)
 	if err != nil {
@@ -1051,7 +1069,9 @@ func judge(c C18Case, h *history, startErr error, reports []Report, lines []Line
 		switch n := len(byFile[key]); {
 		case n == 0:
 			// Start-up as a whole failing, or nri skipping the file, both end here.
-			return failNow(h, "executable regular file %s (mode %03o) was not launched: no report%s", p.File(), p.Mode, startNote)
+			// (time-explainable: on a badly overloaded machine a launched process can be killed
+			// by the registration timeout before its main function has run)
+			return failTimed(h, "executable regular file %s (mode %03o) was not launched: no report%s", p.File(), p.Mode, startNote)
 		case n > 1:
 			return failNow(h, "executable regular file %s was launched %d times (pids %d, %d, …)", p.File(), n, byFile[key][0].Pid, byFile[key][1].Pid)
 		}
@@ -1776,6 +1796,23 @@ func TestExh_C18(t *testing.T) {
 		Listen:  true,
 		Exts:    []Ext{{Idx: "10", Name: "e0", Join: 0, Leave: 2}, {Idx: "20", Name: "e1", Join: 1, Leave: len(ops) + 1}, {Idx: "05", Name: "e2", Join: 3, Leave: 4}},
 	})
+	// the plugin directory, or the drop-in directory, is the working directory: ".", "./", "./."
+	for _, shape := range []string{"dot", "dotslash", "dotdot"} {
+		for _, which := range []int{0, 1} {
+			c := C18Case{
+				Plugins: []Plugin{{Idx: "10", Stem: "a", Behav: bOK, Mode: 0o755}, {Idx: "20", Stem: "b", Behav: bOK, Mode: 0o700}},
+				Others:  []Entry{{Name: "notes.txt", Kind: "file", Mode: 0o644, Content: "text"}},
+				Confs:   []Conf{{File: "10-a_ok.conf", Content: "idx\n"}, {File: "a_ok.conf", Content: "base\n"}, {File: "b_ok.conf", Content: "base of b\n"}},
+				Ops:     ops[:2],
+			}
+			if which == 0 {
+				c.PluginPath = shape
+			} else {
+				c.ConfPath = shape
+			}
+			cases = append(cases, c)
+		}
+	}
 	// Start is called from a goroutine locked to its OS thread which ends right afterwards
 	for _, n := range []int{1, 3} {
 		c := C18Case{Ops: ops, StartThread: "locked_thread_exits", StopAfter: "20ms"}
